@@ -124,6 +124,15 @@ CLAIMS["C07"] = dict(
     note="LAPACK lstsq not modelled: 'an assignment exists => accepted' is only observed; float rounding at the acceptance thresholds counted as ambiguous.",
     design="8.C07")
 
+CLAIMS["C08"] = dict(
+    technique="Lean 4 theorems about the unlink/relink copy protocol (Atomica.Protocol.Graph) + correspondence over histories of runs, copies, pickles and fresh processes with deep structural snapshots (mode E)",
+    text="PARTIAL by nature: determinism and input preservation of the implementation are runtime facts; what is proved is the one piece of copy logic that is logic: relink (unlink m) restores every reference, lookup table and parsed function "
+         "when ids are pairwise distinct (relink_unlink, unlink_no_refs, idempotence under the guards, copy_model, ids_distinct_of_build, with kernel-checked witnesses that the hypotheses are needed), and that Engine.process is a function (run_function, copy_commutes). "
+         "The property itself is decided at the strength of sampled histories: 30 (quick) / 600 (thorough) histories over {run A, run B, run with programs, deepcopy then run, pickle round trip then run, Result save/load, fresh subprocess}, "
+         "every observation compared bit-for-bit with the first for the same input, every input object deep-hashed before and after each call; the ids hypothesis is evaluated on every extracted model.",
+    note="Python aliasing, pickling, copy.deepcopy, module-level state and BLAS threading are runtime; frameworks calling rand/randn excluded as the property says.",
+    design="8.C08")
+
 NA_DEFAULT = "not yet claimed: model, theorems and correspondence under construction (see DESIGN.md section 8)"
 NA = {}
 
